@@ -803,12 +803,28 @@ class World:
         env.CLOCK.cur = None
 
     # -- helpers
-    def put_request_obj(self, msgs=None) -> PutRequest:
+    def put_request_obj(self, msgs=None, opts: int = 0) -> PutRequest:
+        """opts: further Metadata options carried by the request (0 none, 1 filestore request,
+        2 flow label, 3 filestore request + flow label + fault handler override)."""
         c = self.cfg
+        kw = {}
+        if opts:
+            from spacepackets.cfdp.tlv import FaultHandlerOverrideTlv, FileStoreRequestTlv, FlowLabelTlv
+            from spacepackets.cfdp.defs import FaultHandlerCode
+            from spacepackets.cfdp.tlv import FilestoreActionCode
+
+            if opts in (1, 3):
+                kw["fs_requests"] = [FileStoreRequestTlv(FilestoreActionCode.CREATE_FILE_SNM, "dst/req.bin")]
+            if opts in (2, 3):
+                kw["flow_label_tlv"] = FlowLabelTlv(b"\x07")
+            if opts == 3:
+                kw["fault_handler_overrides"] = [
+                    FaultHandlerOverrideTlv(ConditionCode.FILE_SIZE_ERROR, FaultHandlerCode.IGNORE_ERROR)
+                ]
         if c.metadata_only:
             return PutRequest(
                 destination_id=self.b.eid, source_file=None, dest_file=None, trans_mode=c.req_mode,
-                closure_requested=c.req_closure, msgs_to_user=msgs,
+                closure_requested=c.req_closure, msgs_to_user=msgs, **kw,
             )
         return PutRequest(
             destination_id=self.b.eid,
@@ -817,6 +833,7 @@ class World:
             trans_mode=c.req_mode,
             closure_requested=c.req_closure,
             msgs_to_user=msgs,
+            **kw,
         )
 
     def dst_bytes(self):
